@@ -22,20 +22,41 @@ class Cfg:
         return self.v.get((section, key), default_value)
 
 
+# task names that contain glob / regular-expression metacharacters, next to names they would match as a pattern (a name filter is
+# string equality)
+ODD_NAMES = ["query[1]", "query1", "count(*)", "count(distinct)", "index-*", "index-append", "p?", "pq", "a.b", "aXb", "a+b", "aab",
+             "x|y", "x", "^t$", "t", "bulk index", "Bulk"]
+
+
 def gen_case(rng):
     nid = [0]
+    used = set()
 
     def task():
         nid[0] += 1
-        return {"id": nid[0], "name": f"task{nid[0]}", "type": rng.choice(OPTYPES), "tags": rng.sample(TAGS, rng.choice([0, 0, 1, 1, 2])),
-                "tagstr": rng.random() < 0.5}
+        name = f"task{nid[0]}"
+        if rng.random() < 0.25:
+            free = [n for n in ODD_NAMES if n not in used]
+            if free:
+                name = rng.choice(free)
+        used.add(name)
+        return {"id": nid[0], "name": name, "type": rng.choice(OPTYPES), "tags": rng.sample(TAGS, rng.choice([0, 0, 1, 1, 2])),
+                "tagstr": rng.random() < 0.5, "cp": False, "acp": False}
 
     sched = []
     for _ in range(rng.randint(1, 6)):
         if rng.random() < 0.5:
             sched.append({"leaf": task()})
         else:
-            sched.append({"par": [task() for _ in range(rng.randint(1, 4))], "payload": rng.randint(1, 9)})
+            ts = [task() for _ in range(rng.randint(1, 4))]
+            r = rng.random()
+            if r < 0.25:
+                rng.choice(ts)["cp"] = True        # completed-by: <task>
+            elif r < 0.4:
+                for t in ts:
+                    t["acp"] = True                # completed-by: any
+            # payload = the explicit `clients` of the parallel element; 0 = none given (as many clients as its sub-tasks ask for)
+            sched.append({"par": ts, "payload": rng.choice([0, 0, rng.randint(1, 9), rng.randint(1, 9), rng.randint(1, 9)])})
     exclude = rng.random() < 0.5
     pars = [e for e in sched if "par" in e]
     all_tasks = [t for e in sched for t in ([e["leaf"]] if "leaf" in e else e["par"])]
@@ -86,13 +107,22 @@ def build(case):
         return build_from_spec(case)
     sched = []
     for e in case["schedule"]:
-        mk = lambda t: track.Task(t["name"], track.Operation("op-" + t["name"], t["type"]), tags=_tags(t), clients=1 + t["id"] % 3, iterations=t["id"])
+        mk = lambda t: track.Task(t["name"], track.Operation("op-" + t["name"], t["type"]), tags=_tags(t), clients=1 + t["id"] % 3, iterations=t["id"],
+                                  completes_parent=bool(t.get("cp")), any_completes_parent=bool(t.get("acp")))
         if "leaf" in e:
             sched.append(mk(e["leaf"]))
         else:
-            sched.append(track.Parallel([mk(t) for t in e["par"]], clients=e["payload"]))
+            sched.append(track.Parallel([mk(t) for t in e["par"]], clients=e["payload"] or None))
     ch = track.Challenge("c", default=True, schedule=sched)
+    _mark(case, ch)
     return track.Track("t", challenges=[ch]), ch
+
+
+def _mark(case, ch):
+    """remember on every parallel element what the case gave as its explicit client count (the model passes it through)"""
+    for e, obj in zip(case["schedule"], ch.schedule):
+        if "par" in e:
+            obj._case_payload = e["payload"]
 
 
 def _tags(t):
@@ -117,9 +147,18 @@ def build_from_spec(case):
         if "leaf" in e:
             sched.append(mk(e["leaf"]))
         else:
-            sched.append({"parallel": {"clients": e["payload"], "tasks": [mk(t) for t in e["par"]]}})
+            par = {"tasks": [mk(t) for t in e["par"]]}
+            if e["payload"]:
+                par["clients"] = e["payload"]
+            named = [t["name"] for t in e["par"] if t.get("cp")]
+            if named:
+                par["completed-by"] = named[0]
+            elif e["par"] and all(t.get("acp") for t in e["par"]):
+                par["completed-by"] = "any"
+            sched.append({"parallel": par})
     spec = {"description": "d", "indices": [{"name": "i"}], "challenges": [{"name": "c", "default": True, "schedule": sched}]}
     trk = loader.TrackSpecificationReader()("t", spec, "/mappings")
+    _mark(case, trk.challenges[0])
     return trk, trk.challenges[0]
 
 
@@ -140,14 +179,17 @@ def canon(schedule):
     out = []
     for e in schedule:
         if hasattr(e, "tasks"):
-            out.append({"par": [t.iterations for t in e.tasks], "payload": e._clients})
+            out.append({"par": [t.iterations for t in e.tasks], "payload": e._case_payload})
         else:
             out.append({"leaf": e.iterations})
     return out
 
 
 def props(t):
-    return (t.name, t.operation.type, tuple(t.tags), t.clients, t.iterations)
+    """every attribute of a task object (a remaining task must be unchanged in all of them)"""
+    d = {k: repr(v) for k, v in sorted(vars(t).items()) if k != "operation"}
+    d["operation"] = repr((t.operation.name, t.operation.type, t.operation.params, t.operation.meta_data))
+    return d
 
 
 def run(ctx, case):
@@ -201,6 +243,30 @@ def _check_challenge(ctx, case, ch, before, failed, ci):
                     ctx.fail(cls + ":task-changed", "a remaining task's properties changed", before[t.iterations], props(t))
         if any(hasattr(e, "tasks") and len(e.tasks) == 0 for e in ch.schedule):
             ctx.fail(cls + ":empty-parallel", "filtered schedule contains an empty parallel element", "no empty parallel", canon(ch.schedule))
+        # the filtered schedule allocates like the same schedule built from scratch (model of C02 on the reference result)
+        remaining = []
+        for e in case["schedule"]:
+            ts = [t for t in ([e["leaf"]] if "leaf" in e else e["par"]) if matches(t) != case["exclude"]]
+            if ts:
+                remaining.append({"clients": None if "leaf" in e else (e["payload"] or None),
+                                  "tasks": [{"id": t["id"], "clients": 1 + t["id"] % 3, "cp": bool(t.get("cp")), "acp": bool(t.get("acp"))} for t in ts]})
+        ma = ctx.model("alloc", "allocate", {"schedule": remaining})["r"]
+        a0 = driver.Allocator(ch.schedule)
+        rows = []
+        for r in a0.allocations:
+            row = []
+            for x in r:
+                if x is None:
+                    row.append(None)
+                elif isinstance(x, driver.JoinPoint):
+                    row.append(["J", x.id, list(x.clients_executing_completing_task), list(x.any_task_completes_parent)])
+                else:
+                    row.append(["T", x.task.iterations, x.client_index_in_task, x.global_client_index, x.total_clients])
+            rows.append(row)
+        if got == expect and rows != ma["rows"]:
+            ctx.diff("allocation of the filtered schedule", ma["rows"], rows)
+            ctx.fail(cls + ":allocates-differently", "the filtered schedule does not allocate like the same schedule built from scratch",
+                     ma["rows"], rows)
         # runnable: allocator invariants + every step reportable
         a = driver.Allocator(ch.schedule)
         steps = len(a.join_points) - 1
